@@ -2123,9 +2123,56 @@ def search_dimensions(c, rebound):
     ias_opts = [lambda sim: setattr(sim.ri_ias15, "epsilon", 1e-7), lambda sim: setattr(sim.ri_ias15, "adaptive_mode", 0),
                 lambda sim: setattr(sim.ri_ias15, "adaptive_mode", 1), lambda sim: (setattr(sim.ri_ias15, "epsilon", 0.0), setattr(sim, "dt", 0.02)),
                 lambda sim: setattr(sim.ri_ias15, "min_dt", 0.05)]
+    def guarded(fn, timeout):
+        """run fn() in a forked child; returns its (picklable) result, or None if it does not return in time"""
+        r_, w_ = os.pipe()
+        pid = os.fork()
+        if pid == 0:
+            os.close(r_)
+            try:
+                res = fn()
+                with os.fdopen(w_, "wb") as f_:
+                    f_.write(pickle.dumps(res))
+            finally:
+                os._exit(0)
+        os.close(w_)
+        buf, t0 = b"", time.time()
+        while time.time() - t0 < timeout:
+            rd, _, _ = select.select([r_], [], [], 1.0)
+            if rd:
+                ch = os.read(r_, 1 << 20)
+                if not ch:
+                    break
+                buf += ch
+        else:
+            os.kill(pid, signal.SIGKILL)
+            os.waitpid(pid, 0)
+            os.close(r_)
+            return None
+        os.close(r_)
+        os.waitpid(pid, 0)
+        try:
+            return pickle.loads(buf)
+        except Exception:
+            return None
     for k, st in enumerate(ias_opts if full else [ias_opts[0], ias_opts[3]]):
         go("options: ias15 non-default", sy, "ias15", [(1, "a")], opts={"setup": st})
-        go("options: ias15 non-default", sy, "ias15", [(2, "x"), (1, "e")], opts={"setup": st})
+        if st is ias_opts[1]:
+            # adaptive_mode 0: its timestep criterion looks at the variational particles too; with a second-order set (zero at t=0)
+            # the step can collapse to 1e-17 and integrate() never returns -> run under a watchdog
+            res = guarded(lambda: shadow_case(sy, "ias15", 10.0, [(2, "x"), (1, "e")], True, None, {"setup": st})[:2], 25)
+            ntot += 1
+            c.count(("dim", "ias15-adaptive0-second-order"), nontrivial=True)
+            dim(c, "options: ias15 non-default")
+            if res is None:
+                c.violation("F25:ias15-adaptive-mode0-includes-variational",
+                            "IAS15 adaptive_mode=0 with a second-order variational set does not return within 25 s (T=10: the step collapses)",
+                            dict(G=sy.G, m0=sy.m0, bodies=sy.bodies, keys=[(2, "x"), (1, "e")], T=10.0))
+            elif not res[0] <= THR + 4 * res[1]:
+                fails.append(dict(dimension="options: ias15 non-default", integrator="ias15", keys=[(2, "x"), (1, "e")], rel_err=res[0], oracle_uncertainty=res[1],
+                                  bodies=sy.bodies, note="adaptive_mode=0"))
+        else:
+            go("options: ias15 non-default", sy, "ias15", [(2, "x"), (1, "e")], opts={"setup": st})
     bs_opts = [lambda sim: setattr(sim.ri_bs, "max_dt", 0.2), lambda sim: setattr(sim.ri_bs, "min_dt", 1e-3),
                lambda sim: (setattr(sim.ri_bs, "eps_rel", 1e-13), setattr(sim.ri_bs, "eps_abs", 1e-13))]
     for st in (bs_opts if full else bs_opts[:1]):
